@@ -417,6 +417,10 @@ package dbft
 //@   modifies Context.*, heap HeightView.*, gTipHeight, gTipHash, gPrep, gCommit, gPreCommit, gMaxOwnView
 //@   loop 1: invariant len(c.LastChangeViewPayloads) == NN() && len(c.ChangeViewPayloads) == NN() && unchanged(c.ChangeViewPayloads, c.Validators)
 
+// C14 (arithmetic part for proposals): shifting the previous timestamp l and the clock c = a*incr + r by k = q*incr shifts the proposal timestamp max(l+incr, trunc(c)) by k.
+//@ lemma [C14] proposalTimestampShift(l, a, r, q, incr) = implies(incr >= 1 && l >= 0 && a >= 0 && q >= 0 && 0 <= r && r < incr,
+//@        ((a*incr + r + q*incr) / incr) * incr == ((a*incr + r) / incr) * incr + q*incr
+//@        && max(l + q*incr + incr, ((a*incr + r + q*incr) / incr) * incr) == max(l + incr, ((a*incr + r) / incr) * incr) + q*incr)
 //@ pred truncClock() = (gClock / self.TimestampIncrement) * self.TimestampIncrement
 //@ func (*Context).getTimestamp
 //@   requires wf()
